@@ -3,7 +3,7 @@
     Only statements, each closed by [exact] of a lemma of [Service/Proofs*.v], with
     [Print Assumptions] beneath. *)
 From Irismod Require Import Service.Model Service.Proofs Service.ProofsHist Service.ProofsEscrow
-  Service.ProofsSched Service.ProofsBatch Service.ProofsLiab Service.ProofsTally.
+  Service.ProofsSched Service.ProofsBatch Service.ProofsLiab Service.ProofsTally Service.ProofsLive.
 
 (** Over EVERY history (any list of steps: messages of any kind and content, block ends,
     rate changes, transfers, module calls) from any initial height, time and ledger: the
@@ -18,6 +18,21 @@ Theorem request_single_outcome :
     /\ (forall rid q, In rid (map fst (g_out s)) -> get rid (reqs s) = Some q -> q_active q = false).
 Proof. exact single_outcome_lemma. Qed.
 Print Assumptions request_single_outcome.
+
+(** Over EVERY history with fresh context ids: a stored request is never active after its
+    expiration height (the end blocker of that height has expired it: its context's expiry entry
+    was due exactly then), and a stored request that is no longer active has its outcome in the
+    log.  With [request_single_outcome]: every stored request whose expiration height has passed
+    has EXACTLY one outcome (answered or expired), and before that at most one. *)
+Theorem request_outcome_by_expiry :
+  forall c steps h0 t0 l0,
+    fresh_history c (init h0 t0 l0) steps ->
+    let s := run c (init h0 t0 l0) steps in
+    forall rid q, get rid (reqs s) = Some q ->
+      (q_active q = true -> height s <= q_exp q)
+      /\ (q_active q = false -> In rid (map fst (g_out s))).
+Proof. exact outcome_by_expiry_lemma. Qed.
+Print Assumptions request_outcome_by_expiry.
 
 (** Over EVERY history in which context ids are fresh ([fresh_history]: no context id is issued
     while a context with that id is still stored): (1) every active request belongs to the
